@@ -25,7 +25,8 @@ EXPLANATION = (
     'is interpreted, module a star-imports b): the module served '
     'inside a fresh change-checking context must carry the current modification time of its file - for the module asked for '
     'directly; staleness reached through imports of unchanged modules is R1. Equality of complete answers after a concrete edit '
-    'history is NOT decided.')
+    'history is NOT decided.'
+    ' Later additions: the history model has the operations touch, delete and re-creation of a module, and a request that fails after its module was validated.')
 TECHNIQUE = 'retention-site inventory vs. read-set of the cache validity predicate + abstract interpretation of the module cache over all bounded edit histories'
 
 PROJECT = 'supp/project.py'
